@@ -18,7 +18,7 @@ from vlib.problems import Repr, base_tensors, run_functional, contraction, FUNCT
 from vlib.substrace import Recorder
 from props.c10 import INTENDED, PARAM_IDS
 
-KINDS = ["nn", "edit", "editnn", "mixed", "sib", "msib", "nntied"]
+KINDS = ["nn", "edit", "editnn", "mixed", "sib", "msib", "msib3", "nntied"]
 PARTS = {"111": [0, 0, 0], "112": [0, 0, 1], "121": [0, 1, 0], "122": [0, 1, 1], "123": [0, 1, 2]}
 
 
